@@ -28,6 +28,7 @@ From H3V Require Import Spec.FrameVocab Model.FrameDec Model.FrameStream Proofs.
 From H3V Require Import Model.AcceptRecv Proofs.AcceptRecvProofs.
 From H3V Require Import Spec.FrameTrace Proofs.FramesProofs.
 From H3V Require Import Model.Cursor Proofs.CursorProofs.
+From H3V Require Import Model.RecvPath Proofs.RecvPathProofs.
 Local Open Scope N_scope.
 
 (* ---------------------------------------------------------------- (1) panic-site inventory *)
@@ -176,7 +177,7 @@ Proof. vm_compute. split; reflexivity. Qed.
 Example C06_cursor_inhabited :
   exists c', cur_copy_to_slice 3 (cur_new [[1]; [2; 3]; [4]]) = Ok ([1; 2; 3], c') /\ cur_chunk c' = Ok [4] /\ cur_position c' = 3.
 Proof. eexists. vm_compute. repeat split. Qed.
-Example C06_cursor_empty_chunk_panics : cur_chunk {| c_bufs := [[1]]; c_total := 1; c_front := 0; c_index := 1 |} = Panic 138.
+Example C06_cursor_chunk_at_end_panics_inhabited : cur_chunk {| c_bufs := [[1]]; c_total := 1; c_front := 0; c_index := 1 |} = Panic 138.
 Proof. reflexivity. Qed.
 
 (* unidirectional stream header (stream.rs AcceptRecvStream::poll_type: chunk()[0], VarInt::decode, push_bytes
@@ -193,6 +194,20 @@ Proof. exact poll_type_no_panic. Qed.
 
 Example C06_no_panic_varint_inhabited : fst (vi_decode [64]) = Err 1 /\ fst (vi_decode [64; 5]) = Ok 5.
 Proof. vm_compute. split; reflexivity. Qed.
+
+(* the COMPOSITION for the bytes of one frame (Model/RecvPath.v: Frame::decode, then for HEADERS decode_stateless
+   and Header::try_from + the role's message constructor, for SETTINGS Settings::decode - the call order of
+   resolve_request / recv_response / poll_recv_trailers / poll_control): no stage panics, for every byte string,
+   role, HeaderMap growth behaviour and field-section limit *)
+Theorem C06_no_panic_receive_path_composed :
+  forall role grow max v s, wf_bytes v -> recv_path role grow max v <> RpPanic s.
+Proof. exact recv_path_no_panic. Qed.
+
+Example C06_receive_path_inhabited :
+  (exists r, recv_path RpServerRequest (fun _ => false) None [1; 8; 0; 0; 209; 215; 80; 1; 97; 193] = RpMessage (RpReq (Delivered r))) /\
+  (exists e, recv_path RpServerRequest (fun _ => false) None [1; 3; 0; 0; 255] = RpQpackRefused e) /\
+  (exists e, recv_path RpClientResponse (fun _ => false) None [7; 0] = RpFrameRefused e).
+Proof. split; [|split]; eexists; vm_compute; reflexivity. Qed.
 
 (* ---------------------------------------------------------------- (4) progress *)
 (* FrameStream (h3/src/frame.rs poll_next / poll_data over BufRecvStream and the transport queue): once the
@@ -279,6 +294,7 @@ Print Assumptions C06_no_panic_cursor_copy_to_slice.
 Print Assumptions C06_cursor_varint_is_flat_varint.
 Print Assumptions C06_no_panic_frame_stream.
 Print Assumptions C06_no_panic_accept_recv.
+Print Assumptions C06_no_panic_receive_path_composed.
 Print Assumptions C06_progress_accept_recv.
 Print Assumptions C06_progress_driver_woken_on_error.
 Print Assumptions C06_progress_requests_complete.
